@@ -66,7 +66,7 @@ def corpus():
                  'par_ts': 5, 'run': [7], 'second_change': True})
     # a parallel step declared through `processes`; quantities crossing the pipe
     base.append({'kind': 'shutdown', 'ends': 1, 'last_forced': True, 'kill': None, 'kill_at': 0,
-                 'par_ts': 1, 'run': [3], 'legacy_step': True, 'units': True})
+                 'par_ts': 1, 'run': [3], 'legacy_step': True, 'units': True, 'override': True})
     base.append({'kind': 'shutdown', 'ends': 0, 'last_forced': False, 'kill': 'divide', 'kill_at': 2,
                  'par_ts': 3, 'run': [4]})
     c = sched_prop.scheduler_corpus()[7]
@@ -95,6 +95,7 @@ def generate(rng, n, tier):
                         'sleep': rng.choice([0.0, 0.0, 0.3]), 'killer_first': rng.random() < 0.5,
                         'bystander': rng.random() < 0.4, 'legacy_step': rng.random() < 0.3,
                         'units': rng.random() < 0.3, 'second_change': rng.random() < 0.4,
+                        'override': rng.random() < 0.3,
                         'run': [rng.choice([2, 3, 4, 5]) for _ in range(rng.choice([1, 2]))]})
     return out
 
@@ -142,6 +143,11 @@ def _shutdown_run(case, obs):
             # a parallel step declared through the `processes` dictionary (the legacy placement of derivers)
             processes['legacy'] = TickStep({'_parallel': True, 'var': 'ls'})
             topology['legacy'] = {'vars': ('vars',)}
+        if case.get('override'):
+            # a parallel process carrying a schema override (`_schema`: its variable is `set`, not accumulated)
+            processes['ovr'] = TickProcess({'_parallel': True, 'var': 'ov', 'ts': 1,
+                                            '_schema': {'vars': {'ov': {'_updater': 'set'}}}})
+            topology['ovr'] = {'vars': ('vars',)}
         if case.get('units'):
             # a parallel and a serial process add quantities to one variable: the values cross the pipe
             processes['ugrow'] = UnitTick({'_parallel': True})
@@ -166,6 +172,8 @@ def _shutdown_run(case, obs):
                 eng.update(iv)
         obs['gt'] = eng.global_time
         obs['agents'] = sorted((eng.state.get_value().get('agents') or {}).keys())
+        if case.get('override'):
+            obs['ov'] = eng.state.get_value()['vars']['ov']
         if case.get('units'):
             m = eng.state.get_value()['vars']['mass']
             obs['mass'] = [float(m.magnitude), str(m.units)]
@@ -257,6 +265,9 @@ def oracle(case, impl):
                 and o.get('mass') != [2.0 * o['gt'], 'femtogram']:
             fails.append(f'transparent: a parallel and a serial process each add 1 fg per time unit; after '
                          f'{o["gt"]} the variable holds {o.get("mass")}')
+        if case.get('override') and not o.get('raised') and o.get('gt', 0) >= 1 and o.get('ov') != 1:
+            fails.append(f'transparent: the schema override of a parallel process (updater `set`) is not in force: its '
+                         f'variable holds {o.get("ov")} after {o.get("gt")} time units, `set` leaves 1')
         if case['kill'] == 'delete' and not o.get('raised') and 'cell' in o.get('agents', []) \
                 and sum(case['run']) >= case['kill_at']:
             fails.append('delete: the compartment is still there')
